@@ -10,7 +10,7 @@ import warnings
 from .. import env, model
 from ..runner import new_result
 
-_deps = os.path.join(env.VERIF, ".deps")
+_deps = os.environ.get("VERIF_DEPS") or os.path.join(env.VERIF, ".deps")
 if os.path.isdir(_deps) and _deps not in sys.path:
     sys.path.append(_deps)  # private numpy, for this check only
 
